@@ -119,13 +119,16 @@ Definition op_repeat (cap : N) (m : mem) (slen : N) (n : Z) : res * mem * list e
        else let size := SZ_STRING + total in
             if ensure m size then (ROk, add_heap m size, [EHost total; ECheck size true; EHost total; ECharge size])
             else (ROom, m, [EHost total; ECheck size false]).
-Definition op_pad (cap : N) (m : mem) (slen : N) (width : Z) : res * mem * list evt :=
+(* pad_left: format!("{}{}", padding, s) -- the buffer holds the padding exactly, pushing s doubles it (grow_amortized);
+   pad_right: format!("{}{}", s, padding) -- one growth to the exact size.  `need` = host bytes live at the peak. *)
+Definition op_pad (left : bool) (cap : N) (m : mem) (slen : N) (width : Z) : res * mem * list evt :=
   let w := usize_of width in
   if w <=? slen then (ROk, m, [])                                  (* make_string(s): already interned *)
   else let pad := w - slen in
+       let need := if left then 3 * pad else pad + w in
        if ISIZE_MAX <? pad then (RPanic, m, [])
        else if negb (host_ok cap pad) then (RAbort, m, [EHost pad])
-       else if negb (host_ok cap w) then (RAbort, m, [EHost pad; EHost w])
+       else if negb (host_ok cap need) then (RAbort, m, [EHost pad; EHost w])
        else let size := SZ_STRING + w in
             if ensure m size then (ROk, add_heap m size, [EHost pad; EHost w; ECheck size true; EHost w; ECharge size])
             else (ROom, m, [EHost pad; EHost w; ECheck size false]).
